@@ -42,6 +42,7 @@ import (
 	"github.com/bmeg/grip/config"
 	"github.com/bmeg/grip/gdbi"
 	"github.com/bmeg/grip/gripql"
+	"github.com/bmeg/grip/log"
 	"github.com/bmeg/grip/server"
 	"github.com/bmeg/grip/util"
 	"google.golang.org/grpc"
@@ -142,6 +143,41 @@ func (gg *gateGraph) BulkAdd(stream <-chan *gdbi.GraphElement) error {
 	return err
 }
 
+// ---------------------------------------------------------------- late start
+// lateStart delays every consumer goroutine of server.BulkAdd at its first
+// statement (the Info line "BulkAdd: streaming elements to graph"), i.e. before
+// it calls graph.BulkAdd: the schedule in which the goroutines the loop spawns
+// get to run only after the loop has moved on. It is a logrus hook on grip's
+// logger (output discarded); it does nothing unless a request arms it.
+var lateStart struct {
+	mu    sync.Mutex
+	delay time.Duration
+}
+
+type logHook[L any] struct{ levels []L }
+
+func (h logHook[L]) Levels() []L { return h.levels }
+func (h logHook[L]) Fire(e *log.Entry) error {
+	if e.Message == "BulkAdd: streaming elements to graph" {
+		lateStart.mu.Lock()
+		d := lateStart.delay
+		lateStart.mu.Unlock()
+		if d > 0 {
+			time.Sleep(d)
+		}
+	}
+	return nil
+}
+
+func mkHook[L any](l L) logHook[L] { return logHook[L]{levels: []L{l}} }
+
+func installLateStartHook() {
+	l := log.GetLogger()
+	l.SetOutput(io.Discard)
+	l.SetLevel(log.InfoLevel)
+	l.AddHook(mkHook(log.InfoLevel))
+}
+
 // ---------------------------------------------------------------- in-process streams
 type fakeBulkStream struct {
 	ctx    context.Context
@@ -204,7 +240,12 @@ type Handler struct {
 	dirty int
 }
 
-func New() sup.Handler { return &Handler{} }
+var hookOnce sync.Once
+
+func New() sup.Handler {
+	hookOnce.Do(installLateStartHook)
+	return &Handler{}
+}
 
 func (h *Handler) Setup(req map[string]interface{}) error {
 	if m, ok := req["init"].(map[string]interface{}); ok {
@@ -442,6 +483,16 @@ func (h *Handler) runStream(req map[string]interface{}, prefix string, resp map[
 		if order := intsOf(req["order"]); len(order) > 0 {
 			h.gate.arm(order)
 			defer h.gate.disarm()
+		}
+		if late, _ := req["late"].(bool); late {
+			lateStart.mu.Lock()
+			lateStart.delay = 60 * time.Millisecond
+			lateStart.mu.Unlock()
+			defer func() {
+				lateStart.mu.Lock()
+				lateStart.delay = 0
+				lateStart.mu.Unlock()
+			}()
 		}
 		var err error
 		crash, trace, hang := guarded(8*time.Second, func() { err = call() })
